@@ -281,7 +281,22 @@ def lexer_payload_rules(chk, lm: LexModel, LF):
             for n in ast.walk(st):
                 if isinstance(n, ast.Expr) and isinstance(n.value, ast.Call) \
                         and dotted(n.value.func) == f"{src}.popleft":
-                    ok = appended or br.discards
+                    # peek-then-commit: the character was copied from
+                    # source[0] by an earlier statement of the same block
+                    seq = None
+                    par = getattr(n, "_parent", None)
+                    for f in ("body", "orelse"):
+                        sq = getattr(par, f, None)
+                        if isinstance(sq, list) and n in sq:
+                            seq = sq
+                    peeked = seq is not None and any(
+                        isinstance(m, ast.Subscript)
+                        and isinstance(m.value, ast.Name)
+                        and m.value.id == src
+                        for prev in seq[:seq.index(n)]
+                        if isinstance(prev, (ast.Assign, ast.AugAssign))
+                        for m in ast.walk(prev))
+                    ok = appended or br.discards or peeked
                     chk.ob("C03.lexer-popleft-accounted",
                            f"{cons} discard@{'after-token' if ok else 'before-token'}",
                            ok, "a character is consumed and dropped before the "
@@ -289,6 +304,7 @@ def lexer_payload_rules(chk, lm: LexModel, LF):
                            LF, n.lineno)
             if has_append:
                 appended = True
+    popped_char_rule(chk, lm, LF, "C03.lexer-popped-char-stored")
     # L5: the payload of a free-text literal is consumed without looking at it
     free_kinds = {"STRING", "COMPRESSED_NUMBER", "COMPRESSED_STRING",
                   "CHARACTER", "CODEPAGE_NUMBER"}
@@ -379,3 +395,42 @@ def scan_guard_ok(test, src, head, lm, free_text):
             continue
         return False, "has a conjunct the rule set does not recognise"
     return True, ""
+
+
+def popped_char_rule(chk, lm, LF, RULE):
+    """L6: a character popped inside a scan loop is stored before the loop
+    can leave (pop-then-check drops the character that ends the literal)."""
+    src = lm.src_var
+    # L6: a character popped inside a scan loop is stored before the loop can
+    # leave (pop-then-check drops the character that ends the literal)
+    for br in lm.branches:
+        for st in br.body:
+            for lp in ast.walk(st):
+                if not isinstance(lp, ast.While):
+                    continue
+                pending = None
+                for s2 in lp.body:
+                    if isinstance(s2, ast.Assign) and len(s2.targets) == 1 \
+                            and isinstance(s2.targets[0], ast.Name) and any(
+                            isinstance(c, ast.Call) and dotted(c.func) ==
+                            f"{src}.popleft" for c in ast.walk(s2.value)):
+                        pending = s2.targets[0].id
+                        continue
+                    if pending and isinstance(s2, (ast.Assign,
+                                                   ast.AugAssign)) and any(
+                            isinstance(m, ast.Name) and m.id == pending
+                            for m in ast.walk(s2.value)) and not isinstance(
+                            s2, ast.If):
+                        pending = None
+                        continue
+                    if pending and any(isinstance(m, (ast.Break, ast.Continue))
+                                       for m in ast.walk(s2)):
+                        chk.ob(RULE,
+                               f"lexer scan loop line-var {pending}", False,
+                               f"the loop can leave while `{pending}` holds a "
+                               "character already removed from the input: that "
+                               "character is lost, so the text after a literal "
+                               "shifts", LF, s2.lineno,
+                               witness="1.5.25 lexes as 1.5, 25")
+                        pending = None
+    chk.ob(RULE, "all scan loops", True)
